@@ -3789,6 +3789,9 @@ class RandVar(Vars):
 
     def __add__(self, other):
 
+        if isinstance(other, (DecVar, DecVarSub)):
+            other = other.to_affine()
+
         expr = super().__add__(other)
         if isinstance(expr, RoAffine):
             expr = DecRoAffine(expr, other.event_adapt, other.ctype)
